@@ -132,6 +132,11 @@ def run(repo: Repo, rep: Report, tier: str) -> None:
                 continue
             brs = [n for n in walk_local(m.node) if isinstance(n, ast.If) and "op.latch_type" in norm(n.test)]
             touches = any(isinstance(x, ast.Name) and x.id == cv.id for b in brs for st in b.body + b.orelse for x in ast.walk(st))
+            for b in brs:
+                if any(isinstance(x, ast.Name) and x.id == cv.id for st in b.body + b.orelse for x in ast.walk(st)):
+                    bare = isinstance(b.test, ast.Compare) and len(b.test.ops) == 1 and isinstance(b.test.ops[0], (ast.Eq, ast.NotEq, ast.Is, ast.IsNot)) and "op.latch_type" in norm(b.test)
+                    rep.check(bare, "C05-R2", f"{m.short}: the rows follow the declared priority and nothing else", "bare test of op.latch_type" if bare else
+                              f"`{norm(b.test)[:90]}`: the priority rows are emitted only when a further condition holds; when it does not, reset-first behaves like set-first", m.loc(b))
             if brs:
                 rep.check(touches, "C05-R2", f"{m.short}: the branch on op.latch_type changes the rows it emits", f"`{cv.id}` is built or edited inside the branch" if touches else
                           f"the branch never touches `{cv.id}`: both priorities still emit the same rows", m.loc(brs[0]))
@@ -295,7 +300,7 @@ def run(repo: Repo, rep: Report, tier: str) -> None:
     from ..sides import MIRROR_PAIRS as _MP11
     n11 = 0
     for f11 in repo.all_funcs():
-        if not any(seg in f11.module.name + "." for seg in (".lowering.", ".layout.", ".emission.", ".semantic.")):
+        if not any(seg in f11.module.name + "." for seg in (".lowering.", ".layout.", ".emission.", ".semantic.", ".ir.")):
             continue
         for blk in walk_local(f11.node):
             if not isinstance(blk, ast.If):
@@ -322,6 +327,9 @@ def run(repo: Repo, rep: Report, tier: str) -> None:
                         continue
                     n11 += 1
                     wrong = {k: v for k, v in table.items() if (k in _MP11 and v != _MP11[k]) or (k not in _MP11 and v != k)}
+                    # a table looked up with a default (`.get(op, op)`) leaves every operator it does not list as it is: the ordered ones must all be listed
+                    if isinstance(c, ast.Call):
+                        wrong.update({k: "(not listed: stays as it is)" for k in ("<", ">", "<=", ">=") if k not in table})
                     rep.check(not wrong, "C05-R11", f"{f11.short}: operator table `{tname}` used with swapped operands is the mirror table",
                               f"{table}" if not wrong else f"entries {wrong} are not mirror images: `20 > battery` becomes `battery {table.get('>')} 20`; the set/reset threshold is off by one at the boundary", f11.loc(swaps[0]))
     rep.analysed["C05-R11:operand swaps with an operator table"] = n11
